@@ -178,6 +178,14 @@ def run(tier, selftest):
     if rc != 0:
         vlib.tool_error(f"placement-record failed: {err[-500:]}")
     acc_ev, acc_tr, rej = validate_trace(tp, rep)
+    # the same kind of histories on the second MODULE of a file (a decoy MODULE with equally named elements stands in front)
+    tp2 = os.path.join(vlib.scratch(), "placement_trace_second.ndjson")
+    rc, lines, err = vlib.run_harness(binp, ["placement-record", "--seed", vlib.seed() + 311, "--traces", max(6, traces // 3), "--steps", steps,
+                                             "--init", init, "--second", 1, "--out", tp2], timeout=900)
+    if rc != 0:
+        vlib.tool_error(f"placement-record (second module) failed: {err[-500:]}")
+    acc_ev2, acc_tr2, rej2 = validate_trace(tp2, rep)
+    acc_ev, acc_tr, rej = acc_ev + acc_ev2, acc_tr + acc_tr2, rej + rej2
     # histories on files that also hold the module children outside the placement model (optional singletons, IF_DATA,
     # USER_RIGHTS): judged by the property alone (Trace_PlacementIdeal, incl. KeepsLoaded over every child)
     tpx = os.path.join(vlib.scratch(), "placement_trace_extras.ndjson")
@@ -225,6 +233,7 @@ def run(tier, selftest):
         "replay_mismatches": s1["mismatches"] + s2["mismatches"],
         "trace_events_validated": acc_ev,
         "trace_rejections": rej,
+        "histories_on_a_second_module": acc_tr2,
         "trace_shape": {"traces": traces, "steps": steps, "init_children": init, "consecutive_sort_calls": repeat},
     }
     if binding is not None:
